@@ -89,8 +89,8 @@ GRIDS = [("quadratic", 30, 3.0), ("geometric", 30, 0), ("irregular", 30, 3.0), (
 
 def cases_S(tier, seed):
     thorough = tier == "thorough"
-    nxs = [3, 4, 5, 8, 16, 50, 150, 201, 400] if thorough else [3, 4, 8, 50, 150, 400]
-    tabs = ["T_ship_gas", "A_kink", "S_zdip", "S_zdip_desc"] + (["T_hay", "T_lib", "T_ship_oil", "A_jump", "A_kink1e3", "A_fall"] if thorough else ["A_jump"])
+    nxs = [3, 4, 5, 8, 16, 50, 150, 201, 400, 1000] if thorough else [3, 4, 8, 50, 150, 401]
+    tabs = ["T_ship_gas", "A_kink", "A_fall", "S_zdip", "S_zdip_desc"] + (["T_hay", "T_lib", "T_ship_oil", "A_jump", "A_kink1e3", "A_fall"] if thorough else ["A_jump"])
     pairs = [(100.0, 8000.0), (7000.0, 8000.0), (7990.0, 8000.0)]
     if seed:
         off = seed_offset(seed)
@@ -133,7 +133,7 @@ def evaluate_S(case):
 # ---- E: deviation-bounded solver answers ---------------------------------------------------
 def cases_E(tier, seed):
     out = []
-    for cls, tab, nx in itertools.product(["ideal", "single"], ["T_ship_gas", "A_kink"], [5, 20, 250]):
+    for cls, tab, nx in itertools.product(["ideal", "single"], ["T_ship_gas", "A_kink"], [5, 20, 250, 600]):
         if cls == "ideal" and tab != "T_ship_gas":
             continue
         out.append({"part": "E", "cls": cls, "table": tab if cls == "single" else None, "p_f": 7000.0,
